@@ -240,11 +240,20 @@ impl<'a> Gen<'a> {
                 chrono::NaiveDate::from_ymd_opt(2001, 2, 3).unwrap().and_hms_opt((t % 24) as u32, (t % 60) as u32, 7).unwrap(),
             ))),
             18 => Value::ChronoTime(Some(Box::new(chrono::NaiveTime::from_hms_opt((t % 24) as u32, 5, (t % 60) as u32).unwrap()))),
-            19 => Value::Decimal(Some(Box::new(rust_decimal::Decimal::new(t * 10 + 5, 1)))),
+            // (scale is part of a decimal: trailing zeros and a negative zero stay)
+            19 => Value::Decimal(Some(Box::new(match t % 4 {
+                0 => rust_decimal::Decimal::new(t * 100, 2),
+                1 => rust_decimal::Decimal::new(-(t % 2), 1),
+                _ => rust_decimal::Decimal::new(t * 10 + 5, 1),
+            }))),
             20 => Value::BigDecimal(Some(Box::new(bigdecimal::BigDecimal::from(t) / 4))),
             21 => Value::TimeDate(Some(Box::new(time::Date::from_calendar_date(2010 + (t % 10) as i32, time::Month::March, 1 + (t % 28) as u8).unwrap()))),
             22 => Value::IpNetwork(Some(Box::new(ipnetwork::IpNetwork::new(std::net::IpAddr::V4(std::net::Ipv4Addr::new(10, 0, (t % 250) as u8, 0)), 24).unwrap()))),
             23 => Value::MacAddress(Some(Box::new(mac_address::MacAddress::new([1, 2, 3, 4, 5, (t % 250) as u8])))),
+            36 if t % 3 == 0 => Value::Array(
+                sea_query::ArrayType::String,
+                Some(Box::new(vec![Value::from(format!("a{t}'b")), Value::from("c\\d\"e"), Value::from("plain")])),
+            ),
             36 => Value::Array(sea_query::ArrayType::Int, Some(Box::new(if t % 4 == 0 { vec![] } else { vec![Value::Int(Some(t as i32)), Value::Int(Some(7))] }))),
             37 => Value::Vector(Some(Box::new(pgvector::Vector::from(vec![0.5f32, t as f32])))),
             0 => Value::Bool(Some(t % 2 == 0)),
